@@ -144,6 +144,17 @@ def run(ctx):
         e = expr(t, c.args[0])
         res.check(e == "as_str(self.utf8_prefix)" and has_bool(t, c.bb, "T", r"^is_none\(self\.invalid_suffix\)$"), "R13.7", "short-flags", c.where(),
                   "invalid_suffix.is_none() && is_number(utf8_prefix.as_str())", "ShortFlags::is_negative_number tests is_number(%s) under %s" % (e[:60], guard_strs(t, c.bb)))
+    # ---- R13.8b advance_by(n) = n successful next_flag() calls: it stops with Err(i) on exhaustion AND on the invalid suffix
+    ab = fx.body("clap_lex::ShortFlags::advance_by")
+    heads = [c for c in ab.calls_to(r"Iterator>?::next$") if re.search(r"Range", expr(ab, c.args[0]))]
+    res.floor("R13.8", "loop head of advance_by", len(heads), 1)
+    if heads:
+        h = heads[0]
+        back = [p for p in ab.pred()[h.bb] if h.bb in ab.reachable(h.target if h.target is not None else h.bb) and p in ab.reachable(h.target if h.target is not None else h.bb)]
+        inner_ok = r"^V0:(branch\(map_err\(|.*next(_flag)?\(self\)\)?#Some\.0|.*#Continue\.0\)?$)|^V0:branch\(map_err"
+        okb = bool(back) and all(any(re.search(r"^V0:branch\(map_err\(|^V0:[^!]*next(_flag)?\(self\)[^,]*#Some\.0", g) for g in guard_strs(ab, p)) for p in back)
+        res.check(okb, "R13.8", "advance_by-stops-on-invalid", ab.where(), "the loop continues only after a flag that is Some(Ok(_))",
+                  "advance_by keeps counting after next() yielded the invalid suffix (Some(Err(_))): advance_by(n) is no longer n successful next_flag() calls (back-edge guards %s)" % [guard_strs(ab, p)[-2:] for p in back])
     # ---- R13.9 is_number: after the scan the only rejection is a dangling exponent
     isn = fx.body("clap_lex::is_number")
     post = [d for d in isn.def_sites(0) if any(re.match(r"^V0:next\(into_iter\(enumerate\(", g) for g in guard_strs(isn, d[0]))]
